@@ -21,7 +21,8 @@ import Glom.Py.Val
       `Spec(T…)` likewise, `list`/`tuple`/`dict` are rebuilt with every member
       evaluated in argument mode, everything else is passed through literally)
     * the `(` branch: for `op == '('` the loop does NOT run `arg_val` on the
-      recorded `(args, kwargs)` (`if op != '(': arg = arg_val(…)`, commit db9b8f7);
+      recorded `(args, kwargs)` (`if op != '(': arg = arg_val(…)`, commit db9b8f7;
+      the exempted characters are the extracted table `argExempt`);
       `scope[glom](target, Call(cur, args, kwargs), scope)` and `Call.glomit`:
       `r(func)(*r(args), **r(kwargs))` with `r = arg_val(target, ·)` evaluate, in
       this order, the already evaluated callee `cur` (`Prim.revalFunc`: a callable
@@ -145,6 +146,8 @@ structure Facts where
   recorded : List (String × String)                   -- TType overload → op char
   dispatch : List (String × String × List String)     -- op char → (kind, caught classes), branch order
   partIdx : List String                               -- third argument of every PathAccessError(…) in `_t_eval`
+  argExempt : List String                             -- op chars the loop exempts from `arg = arg_val(…)` (`if op != '(':`)
+  argShapeOk : Bool                                   -- the extractor recognised where / under which guard that statement runs
   exc : ClassTable                                    -- exception classes with their MROs
 
 def dispatchOf (F : Facts) (op : String) : Option (String × List String) :=
@@ -182,14 +185,11 @@ def applyBranch {V S} (F : Facts) (prim : Prim V S) (k : Nat) (op : String)
 /-- an evaluation that reads and may change the state -/
 abbrev Run (S ε α : Type) := S → Except ε α × S
 
-/-- the op character the loop exempts from `arg_val` (`if op != '(':`) -/
-def callChar : String := "("
-
 /-- one iteration of the loop body for operation number `k = i // 2`: `ev` evaluates
     `arg_val(target, t_path[i+1], scope)` in the state it is given -/
 def stepOp {V S} (F : Facts) (prim : Prim V S) (target : V) (k : Nat) (op : String)
     (s : S) (cur : V) (ev : Run S Err (AV V)) : Except Err V × S :=
-  if op == callChar then
+  if F.argExempt.contains op then
     -- `arg` stays the recorded `(args, kwargs)`
     match dispatchOf F op with
     | none => (.ok cur, s)
